@@ -364,3 +364,23 @@ func (h *VConn) ReadersBlocked() int {
 	defer h.mu.Unlock()
 	return h.readers
 }
+
+// VResetAll resets every live connection of every endpoint (peer side).
+func VResetAll() {
+	mu.Lock()
+	eps := make([]*VEndpoint, 0, len(endpoints))
+	for _, ep := range endpoints {
+		eps = append(eps, ep)
+	}
+	mu.Unlock()
+	for _, ep := range eps {
+		ep.mu.Lock()
+		cs := append([]*VConn{}, ep.Conns...)
+		ep.mu.Unlock()
+		for _, c := range cs {
+			if !c.ClosedByMangos() {
+				c.Reset()
+			}
+		}
+	}
+}
